@@ -27,7 +27,7 @@ func c12(p *Prog, r *Report) {
 	const R4 = "C12.reference-agreement"
 	r.Rule(R1, "hashBlind: expander XMD(h, \"ECDSA Key Blind\"); message = D bytes || 0x00 || context; reduced mod c.Params().N; curve switch P-224/256/384/521 -> SHA-256/256/384/512 with L >= field size (48/72/98 for the RFC 9380 curves), other curves rejected; returns the element just computed; no mutable global state", 6)
 	r.Rule(R2, "Blind/Unblind/BlindKeySign take the scalar from hashBlind(curve, blind key, context) with their own arguments; context-less wrappers pass nil", 7)
-	r.Rule(R4, "hashToInt identical to GOROOT crypto/ecdsa; reference verify/sign core statements embed in order in verifyGeneric/signGeneric (signatures under blinded keys verify with the standard library only if the digest conversion and equations are the standard ones)", 3)
+	r.Rule(R4, "hashToInt identical to GOROOT crypto/ecdsa (or proved on every path to compute the same truncation and shift); reference verify/sign core statements embed in order in verifyGeneric/signGeneric (signatures under blinded keys verify with the standard library only if the digest conversion and equations are the standard ones)", 3)
 	r.Rule(R3, "blind = ScalarMult(pk,k); unblind = ScalarMult(pk, ModInverse(k,N)); signing key = Mul(D,k) mod N with the blinded public key from the same arguments, then Sign", 3)
 
 	hb := anchor(p, r, R1, "~/ecdsa.hashBlind")
